@@ -53,7 +53,7 @@ prop('C07', 'c07', '5 (C07)', gens=('GenArith.v', 'GenLoops.v', 'GenEntryPoints.
 prop('C08', 'c08', '5 (C08)', gens=('GenArith.v', 'GenLoops.v', 'GenAccumulator.v'))
 prop('C09', 'c09', '5 (C09)', gens=('GenArith.v', 'GenLoops.v', 'GenAccumulator.v'))
 prop('C10', 'c10', '5 (C10)', gens=('GenArith.v', 'GenLoops.v', 'GenModifiers.v'))
-prop('C11', 'c11', '6 (C11)', gens=('GenArith.v', 'GenLoops.v', 'GenStorages.v'))
+prop('C11', 'c11', '6 (C11)', gens=('GenArith.v', 'GenLoops.v', 'GenStorages.v', 'GenIoReaders.v'))
 prop('C12', 'c12', '6 (C12)', gens=('GenArith.v', 'GenMaxSize.v'))
 prop('C13', 'c13', '6 (C13)', gens=('GenArith.v', 'GenFixint.v'))
 prop('C14', 'c14', '7 (C14)', gens=('GenSchemaDecl.v', 'GenSchemaImpls.v'))
